@@ -154,11 +154,12 @@ _uses("CouplingAnalysis.symmetrize_by_absmax[uses]", _CA, "CouplingAnalysis.symm
 # kernel(array, N, tau_max, corr_range)
 # NumPy semantics assumed for numpy.empty(shape, dtype=...): an array of that shape
 # assumed: corr_range>=1 (T - tau_max is not checked: tau_max == T gives corr_range == 0 and the kernels divide by it);
-#   tau_max<=127 for lag_mode 'max' (int8 lags; not checked); tau_max<=2147483646
+#   tau_max<=2147483646
 _c = _uses("CouplingAnalysis.cross_correlation[uses]", _CA, "CouplingAnalysis.cross_correlation", ("C10", "C20"),
            {"self.data": "arr:float64:2", "tau_max": "int", "lag_mode": "obj"}, [],
            {_k: ["arg1==shape(self.data,1) and arg1>=0", "arg2==tau_max and arg2>=0", "arg3==shape(self.data,0)-tau_max",
                  "len(arg0)==arg2+1", "shape(arg0,0)==arg2+1 and shape(arg0,1)==arg1 and shape(arg0,2)==arg3"]
+                + (["arg2<=127"] if _k.endswith("_max") else [])      # int8 lags: checked by the method since the fix of finding #18
             for _k in ("_cross_correlation_max", "_cross_correlation_all")}, total="<=1")
 _c.call_facts = {"numpy.empty": {"returns": "arr:float32:3", "ensures": [
     "shape(result,0)==arg0[0] and shape(result,1)==arg0[1] and shape(result,2)==arg0[2]"]}}
